@@ -54,7 +54,7 @@ def who_may_write(ctx, tk):
         for sub in ast.walk(f.node):
             if isinstance(sub, ast.Attribute) and isinstance(sub.ctx, ast.Store) and sub.attr in FROZEN \
                     and isinstance(sub.value, ast.Name) and f.params and sub.value.id == f.params[0]:
-                ok = f.name == "__init__"
+                ok = f.name == "__init__" or f.qual in tk.ctor_helpers()
                 ctx.decide("C11.a", f, "the key set, modulus and key dtype are assigned only by the constructor", ok,
                            "`%s` is re-assigned outside __init__: the key set is no longer fixed" % ast.unparse(sub), node=sub, engine="E3")
         # content writes into the keys buffer
